@@ -567,8 +567,18 @@ class FromKafkaBatched(Source):
                 else:
                     new_partitions = len(kafka_cluster_metadata.topics[self.topic].partitions)
                 if new_partitions > self.npartitions:
-                    self.positions.extend([-1001] * (new_partitions - self.npartitions))
-                    self.npartitions = new_partitions
+                    # partitions discovered at run time start from the offset
+                    # committed for them (-1001 if there is none), like the
+                    # partitions known at start-up
+                    new_tps = [ck.TopicPartition(self.topic, p)
+                               for p in range(self.npartitions, new_partitions)]
+                    try:
+                        committed = self.consumer.committed(new_tps, timeout=1)
+                    except ck.KafkaException:
+                        committed = None  # try again at the next poll
+                    if committed is not None:
+                        self.positions.extend(tp.offset for tp in committed)
+                        self.npartitions = new_partitions
 
             for partition in range(self.npartitions):
                 tp = ck.TopicPartition(self.topic, partition, 0)
